@@ -107,7 +107,7 @@ def judge(ctx_v, evs, root, cmd, tag, archive, readonly):
                 L = len(e.arg)
                 # the order is defined on the *stored* path; with option i (paths flattened) or arbitrary mutated archives the
                 # extraction argument is not a monotone image of it, so the order is only judged where it is
-                order_judgeable = 'i' not in cmd[1:].split('w')[0] and tag != 'mutated-corpus'
+                order_judgeable = 'i' not in cmd[1:].split('w')[0] and tag not in ('mutated-corpus', 'deferred-ladder')
                 if order_judgeable and last_deferred_len is not None and L > last_deferred_len:
                     ctx_v('C10-deferred-order', "'lha %s': deferred symlink %r (path length %d) created after a shorter one (%d)" % (cmd, e.arg, L, last_deferred_len))
                 last_deferred_len = L
@@ -325,6 +325,42 @@ def run(ctx):
             n[0] += 1
             jobs.append((n[0], 'name-enum:%s' % ('ext-path', 'ext-filename', 'inhdr-name')[ch], arc.archive([mem]), ('xf', 'xfw=sub', 'xq')[si % 3], None, base, exe, so, []))
     ctx.cov['hostile_name_strings_enumerated'] = len(strings)
+    # deferred-link ladders: several dangerous links at nested places of a small tree that also holds a harmless link to a
+    # directory (an alias), their stored paths decorated with redundant separators / '.' / 'x/..' so that the length of the
+    # stored string says nothing about where the link really lands.  Whatever order the tool picks, no link may be created
+    # *through* another dangerous link (the monitor resolves every operation at call time).
+    DEC = [b'', b'', b'/', b'//', b'///', b'./', b'.//', b'x/../', b'//./', b'\\']
+    PLACES = [b's', b'd', b'c', b's/c', b'd/c', b'd/e', b's/e', b'd/e/g', b's/e/g', b'd/c/h']
+    TGT = [b'..', b'../victim', b'../gone', b'/abs/elsewhere', b'a/../..', b'../../up2']
+
+    def ladder(fixed=None):
+        lv = lambda: rnd.choice([0, 1, 2, 3])
+        ms = [arc.dir_member(b'd/', level=lv(), perms=0o40755)]
+        if rnd.random() < 0.5:
+            ms.append(arc.dir_member(b'd/e/', level=lv(), perms=0o40755))
+        ms.append(arc.symlink_member(b's', b'd', level=lv()))
+        picks = fixed or [(rnd.choice(DEC), rnd.choice(PLACES), rnd.choice(TGT)) for _ in range(rnd.randrange(2, 5))]
+        for dec, place, tgt in picks:
+            nm = dec + place
+            if rnd.random() < 0.2 and b'/' in place:
+                nm = dec + place.replace(b'/', rnd.choice([b'//', b'/./']), 1)
+            ms.append(arc.symlink_member(nm, tgt, level=lv()))
+        if rnd.random() < 0.3:
+            ms.insert(rnd.randrange(1, len(ms)), arc.file_member(rnd, '-lh0-', b'f', size=4, level=lv(), path=rnd.choice([b'd/', b's/', b''])))
+        return ms
+    nl = 0
+    for dec in DEC[2:]:
+        for first in ((b'', b's/c', b'../gone'), (b'', b'd/c', b'..'), (b'', b's/e/g', b'/abs/elsewhere')):
+            for order in (0, 1):
+                pk = [first, (dec, b's', b'../victim')] if order == 0 else [(dec, b's', b'../victim'), first]
+                n[0] += 1
+                nl += 1
+                jobs.append((n[0], 'deferred-ladder', arc.archive(ladder(pk)), ('xf', 'xq', 'x')[nl % 3], None, base, exe, so, []))
+    for i in range(500 if ctx.tier == 'quick' else 12000):
+        n[0] += 1
+        nl += 1
+        jobs.append((n[0], 'deferred-ladder', arc.archive(ladder()), rnd.choice(['xf', 'xq', 'xfw=sub', 'e']), None, base, exe, so, []))
+    ctx.cov['deferred_ladder_archives'] = nl
     # pre-existing symlinks at final components
     pres = [[('a', 'CANARY/precious.txt')], [('a', 'CANARY')], [('a', 'dangling-target')], [('d/f', 'CANARY/precious.txt')],
             [('d/f', '../../nowhere')], [('x', 'CANARY/sub/ro.txt')]]
@@ -365,7 +401,8 @@ def run(ctx):
     ctx.cov['exhaustive_subspace'] = 'all sequences of length <= %d over %d hostile entry kinds (length-3 sampled at 25%% in thorough)' % (2, len(names))
     ctx.cov['rule'] = ('(archive, command) runs of the real tool as user nobody under the LD_PRELOAD monitor; archives = exhaustive short sequences and '
                        'random longer ones over an alphabet of hostile entries (.. / absolute / backslash / 0xFF / NUL names, safe and dangerous links, files '
-                       'through links, link-then-directory, equal-length deferred links), pre-existing symlinks at final components, mutated corpus; '
+                       'through links, link-then-directory, equal-length deferred links), deferred-link ladders (several dangerous links nested below '
+                       'a harmless alias link, stored paths decorated with redundant separators), pre-existing symlinks at final components, mutated corpus; '
                        'distinct by archive+command; non-trivial = at least one mutating operation observed (or a read-only command)')
     ctx.assumptions += ['only libc-mediated operations of the dynamically linked tool are seen by the shim; the canary snapshot is the independent second oracle',
                         'no pre-existing symlinks to directories on any path (stated precondition)']
